@@ -66,6 +66,9 @@ impl Display for SimpleNumber {
 
 impl Hash for SimpleNumber {
     fn hash<H: Hasher>(&self, state: &mut H) {
+        // the variant is part of the value: without it an Integer and a Float whose
+        // text happens to be the bytes of that integer (0.5 and -13291984) hash alike
+        std::mem::discriminant(self).hash(state);
         match self {
             Integer(v) => v.hash(state),
             Float(v) => format!("{}", v).hash(state),
